@@ -355,6 +355,10 @@ func (v *visitor) SliceNode(node *ast.SliceNode) reflect.Type {
 				return v.error(node.To, "invalid operation: non-integer slice index %v", to)
 			}
 		}
+		// Slicing an array yields a slice of its elements.
+		if a := dereference(t); a != nil && a.Kind() == reflect.Array {
+			return reflect.SliceOf(a.Elem())
+		}
 		return t
 	}
 
